@@ -189,15 +189,19 @@ func submatchRegexes(w *World, v ssa.Value, seen map[ssa.Value]bool) []*ssa.Glob
 		if calleeName(x) != "(*regexp.Regexp).FindStringSubmatch" {
 			return nil
 		}
-		ld, ok := x.Call.Args[0].(*ssa.UnOp)
-		if !ok || ld.Op != token.MUL {
-			return nil
+		var out []*ssa.Global
+		for _, leaf := range phiLeaves(x.Call.Args[0], map[ssa.Value]bool{}) {
+			ld, ok := leaf.(*ssa.UnOp)
+			if !ok || ld.Op != token.MUL {
+				return nil
+			}
+			g, ok := ld.X.(*ssa.Global)
+			if !ok {
+				return nil
+			}
+			out = append(out, g)
 		}
-		g, ok := ld.X.(*ssa.Global)
-		if !ok {
-			return nil
-		}
-		return []*ssa.Global{g}
+		return out
 	}
 	return nil
 }
